@@ -54,7 +54,7 @@ def generate(seed, tier):
     for i in range(nd):
         k0["blocks"].append({"n": "d%d" % i, "dyn": True,
                              "stmts": progs.strip([gi.stmt(fields, 1, kinds=["expr", "expr", "in", "if"], nest=1)
-                                                   for _ in range(rng.randint(1, 2))])})
+                                                   for _ in range(rng.choice([1, 2, 2, 3]))])})
     dnames = ["d%d" % i for i in range(nd)]
     cont = {"name": "T0", "fields": [
         {"n": "y", "k": "s", "w": 2, "s": False, "r": True, "i": 0},
